@@ -4,6 +4,8 @@ mod bufio;
 mod config;
 mod log;
 mod utils;
+#[cfg(feature = "verif")]
+mod verif;
 
 use std::{
     cell::RefCell,
@@ -27,6 +29,8 @@ use tokio::{join, sync::broadcast};
 use tracing::{debug, error, info};
 
 pub use self::config::{Config, SyncStrategy};
+#[cfg(feature = "verif")]
+pub use self::verif::{VerifDump, VerifFileStats, VerifKeyDirEntry};
 use self::{
     log::{LogDir, LogIterator, LogStatistics, LogWriter},
     utils::datafile_name,
